@@ -9,6 +9,8 @@ import CSD.Lemmas.FM17
 import CSD.Lemmas.RPFC9
 import CSD.Lemmas.RPDAC2
 import CSD.Lemmas.PFCLocate4
+import CSD.Lemmas.RPFC10
+import CSD.Lemmas.RPDACIter
 
 namespace CSD.Props.C12
 open CSD CSD.PFC
@@ -133,5 +135,29 @@ theorem ordered_kinds_agree {S : List Str} (hv : validDict S = true) (b : Nat)
   have hqn : PFC.nulFree q := FM.nulFree_of_all hq
   exact ⟨PFC.locate_build b S q hne hn hqn hs, RPFC.locate_stores hR q hne hn hqn hs,
     RPDAC.locate_represents dD S hD hn hs q hqn, FM.locate_spec hv hF q hq⟩
+
+/-- **The strings of a prefix search do not depend on the representation either**: PFC under any two bucket
+sizes, RPFC over any storing grammar and bucket size, and RPDAC over any representing grammar all yield the
+same strings for `extractPrefix` — the members that start with the pattern, in order (NULL, or for RPDAC an
+empty iterator, when there is none). -/
+theorem ordered_kinds_agree_on_prefix_strings {S : List Str} (hv : validDict S = true) (b₁ b₂ : Nat)
+    {dR : RPFC.D} (hR : RPFC.Stores S dR) {dD : RPDAC.D} (hD : RPDAC.Represents dD S) (hlen : S.length < 2 ^ 64)
+    (q : Str) (hq : PFC.nulFree q) (hne : q ≠ []) :
+    PFC.extractPrefix (PFC.build b₁ S) q = PFC.extractPrefix (PFC.build b₂ S) q ∧
+    RPFC.extractPrefix dR q = PFC.extractPrefix (PFC.build b₁ S) q ∧
+    RPDAC.extractPrefix dD (RPDAC.bytesNat q) = some ((S.filter (isPrefix q)).map RPDAC.bytesNat) ∧
+    PFC.extractPrefix (PFC.build b₁ S) q = some (if S.filter (isPrefix q) = [] then none else some (S.filter (isPrefix q))) := by
+  obtain ⟨hne', hn, hs, _⟩ := PFC.validDict_facts hv
+  have h1 := PFC.extractPrefix_build b₁ S q hne' hn hs hq
+  have h2 := PFC.extractPrefix_build b₂ S q hne' hn hs hq
+  have h3 := RPFC.extractPrefix_stores hR hne' hn hs q hq
+  exact ⟨by rw [h1, h2], by rw [h3, h1], RPDAC.extractPrefix_represents dD S hD hn hs hlen q hq hne, h1⟩
+
+/-- **Table scans do not depend on the parameters**: PFC under any bucket size and RPFC over any storing
+grammar and bucket size scan to the same list, the sorted input. -/
+theorem table_scans_agree {S : List Str} (hv : validDict S = true) (b : Nat) {dR : RPFC.D} (hR : RPFC.Stores S dR) :
+    PFC.table (PFC.build b S) = some S ∧ RPFC.extractTable dR = some S := by
+  obtain ⟨hne', hn, _, _⟩ := PFC.validDict_facts hv
+  exact ⟨PFC.table_build b S hne' hn, RPFC.extractTable_stores hR hne'⟩
 
 end CSD.Props.C12
